@@ -35,7 +35,7 @@ func init() {
 	Register(&Rule{ID: "STALEPTR", Props: []string{"C10", "C01"}, Min: 3,
 		Doc: "no store goes through a pointer to a slice element (p = &S[i]) after S may have been re-allocated by S = append(S, …) without p being re-derived: such a write lands in the old backing array and is lost.",
 		Run: runSTALEPTR})
-	Register(&Rule{ID: "ITERDONE", Props: []string{"C10", "C01"}, Min: 2,
+	Register(&Rule{ID: "ITERDONE", Props: []string{"C10", "C01", "C16"}, Min: 2,
 		Doc: "where an API function recognises a stop sentinel (ErrIterDone) with ==, every function between the user callback and that comparison returns the callback's error itself, never a wrapped copy.",
 		Run: runITERDONE})
 	Register(&Rule{ID: "FINDOPTS", Props: []string{"C01", "C10"}, Min: 4,
@@ -661,6 +661,61 @@ func runITERDONE(c *Ctx) {
 	}
 	if n == 0 {
 		c.OK("-", "no == comparison with a user-produced sentinel", "nothing to check (errors.Is tolerates wrapping)", true)
+	}
+	// the walk must stop when the callback says so: what Iter/SeekIter hand down as the callback is the
+	// user's function itself, or a wrapper that returns a non-nil error whenever the user's function does
+	for _, name := range []string{"(*Mast).Iter", "(*Mast).SeekIter"} {
+		fn := c.P.MastFunc(name)
+		if fn == nil {
+			continue
+		}
+		var cb *ssa.Parameter
+		for _, p := range fn.Params {
+			if sig, ok := p.Type().Underlying().(*types.Signature); ok && ir.ErrorResultIndex(sig) >= 0 {
+				cb = p
+			}
+		}
+		if cb == nil {
+			continue
+		}
+		for _, ci := range CallsOf(fn) {
+			if len(c.Facts.Callees(ci)) == 0 {
+				continue
+			}
+			for _, a := range ci.Common().Args {
+				if _, isFn := a.Type().Underlying().(*types.Signature); !isFn {
+					continue
+				}
+				pos := P.InstrPos(ci)
+				if ir.ResolveCell(a) == ssa.Value(cb) {
+					c.OK(pos, name+" passes the user's callback down unchanged", "same function value", false)
+					continue
+				}
+				mc, ok := a.(*ssa.MakeClosure)
+				transparent := false
+				if ok {
+					w := mc.Fn.(*ssa.Function)
+					for _, wc := range CallsOf(w) {
+						call, isCall := wc.(*ssa.Call)
+						if !isCall {
+							continue
+						}
+						if fv, isFV := ir.ResolveCell(call.Call.Value).(*ssa.FreeVar); isFV && ir.BindingOf(fv) != nil && ir.Origin(call.Call.Value) == ssa.Value(cb) {
+							if ok2, _ := errorPropagated(w, call, call); ok2 {
+								transparent = true
+							}
+						}
+					}
+				}
+				if transparent {
+					c.OK(pos, name+" passes a wrapper of the user's callback", "the wrapper returns a non-nil error whenever the callback does", false)
+				} else {
+					f := c.Violation(fn, pos, "callback wrapped so that its stop signal does not stop the walk",
+						"the function handed to the tree walk is not the user's callback and does not return the callback's error: when the callback says stop, the walk keeps loading every remaining node (an early-stopped iteration reads the whole tree)")
+					f.Props = []string{"C16"} // the entries reported are still right: only the read bound breaks
+				}
+			}
+		}
 	}
 }
 
